@@ -98,8 +98,9 @@ def step (st : St) (line : String) : St × String :=
   match f with
   | ["case", id] => ({}, s!"case {id}")
   | "ref" :: _ => (st, "ok")
-  | ["open", _] =>
-    let (e, o) := EngineD.step st.eng line
+  | ["open", r] | ["open", r, "lfsc"] =>
+    -- `lfsc`: the store talks to the service through the LiteFS Cloud client; same service, same model
+    let (e, o) := EngineD.step st.eng s!"open {r}"
     ({ st with eng := { e with backup := true } }, o)
   | ["backup-sync"] => if !st.eng.opened then (st, "bad-op") else sync st
   | ["reopen-loop"] =>
